@@ -265,6 +265,7 @@ def write_replay(pid, seed, payload):
         if not os.path.exists(p):
             break
         k += 1
+    payload = dict(payload, seed=seed, tier=os.environ.get("VERIF_TIER_USED", ""))
     with open(p, "w") as fh:
         json.dump(payload, fh, indent=1, default=str)
     return p
